@@ -45,8 +45,11 @@ Record sb_facts := {
   sbf_frame_inherit : bool;                   (* nested frames inherit Sandboxed *)
   sbf_userfunc_unsafe : bool;                 (* script-defined functions are not side-effect-free *)
   sbf_var_import_checked : bool;              (* FindVarImport (bare identifier via a `using` import) reads through the checking GetField *)
-  sbf_purity : list (sb_name * bool)          (* registered function -> the mutation-capability analysis of its C++ body (tools/c19_purity.py)
+  sbf_purity : list (sb_name * bool);         (* registered function -> the mutation-capability analysis of its C++ body (tools/c19_purity.py)
                                                  located every definition and found no use that can modify pre-existing state *)
+  sbf_ctor_global : list sb_name              (* non-abstract types with a constructor / destructor (own or inherited) whose body writes a static,
+                                                 process-global datum unconditionally: VMOps::ConstructorCall has no sandbox test, so a sandboxed
+                                                 expression can construct - and thereby destroy - a temporary of such a type *)
 }.
 
 (* ------------------------------------------------------------------ syntax *)
@@ -684,7 +687,15 @@ Section SbStep.
         | SbVType t =>                                      (* VMOps::ConstructorCall *)
             vs <- sb_evals fr args ;;
             if sb_mem t [sb_t_String; sb_t_Number; sb_t_Boolean] then sb_ret SbVOpaque
-            else sb_alloc t (combine (map N.of_nat (seq 0 (List.length vs))) vs)
+            else
+              (* type->Instantiate(args): the constructor runs now, the destructor when the temporary dies (at the latest when
+                 the evaluation's result is dropped); a body that writes a process-global datum = a write to the external
+                 component, logged under the type's name *)
+              (* DefaultObjectFactory<T>: `DefaultObjectFactoryCheckArgs(args)` refuses arguments before `new T()`; only a type
+                 declared `vararg_constructor` (DateTime - fact f_sb_vararg_types) hands them to its constructor *)
+              (if negb (t =? sb_t_DateTime) && negb (Nat.eqb (List.length vs) 0) then sb_fail SbEOther else sb_ret tt) ;;;
+              (if sb_mem t (sbf_ctor_global F) then sb_extern_write t else sb_ret tt) ;;;
+              sb_alloc t (combine (map N.of_nat (seq 0 (List.length vs))) vs)
         | SbVFun g =>
             if sbfr_sandboxed fr && sbf_call_guard F && negb (sb_fun_safe F g) then sb_fail SbESandbox
             else vs <- sb_evals fr args ;; inv fr g (fst sf) vs
@@ -860,6 +871,9 @@ Definition sb_must_hide : list (sb_name * sb_name) := Eval vm_compute in
       [("ApiUser", "password"); ("ApiUser", "password_hash"); ("ApiListener", "ticket_salt")]%string.
 Definition sb_secrets_hidden (F : sb_facts) : bool :=
   forallb (fun p => sb_is_hidden F (fst p) (snd p)) sb_must_hide.
+(* negated signature of the finding "a destructor resets a process-global singleton": no script-constructible type has a
+   constructor / destructor that writes process-global state unconditionally *)
+Definition sb_no_global_ctor (F : sb_facts) : bool := match sbf_ctor_global F with [] => true | _ => false end.
 Definition sb_no_hidden_global (F : sb_facts) (s : sb_st) : bool :=
   forallb (fun g => match sb_assoc g (nth 0 (sbs_shared s) []) with Some _ => false | None => true end)
           (sbf_hidden_globals F).
